@@ -12,8 +12,8 @@ PROP = {
     "rule": "rapid-generated op lists (1..16 ops, 0..6 workers) and all sequences up to the enumeration bound; non-trivial = history with an unmatched or repeated call, a concurrent burst, or a worker exit / stop while paused; distinct = distinct case JSON",
     "assumptions": ["virtual time (testing/synctest, go1.26.8)"],
     "units": [
-        {"name": "c14", "pkg": "./internal/pkg/controler/pause", "run": "^TestVerif_C14_Manager$", "kind": "rapid", "toolchain": "go126",
-         "facets": ["C14/manager"], "checks": (20000, 200000), "shards": (4, 16), "timeout": (600, 3000)},
+        {"name": "c14", "pkg": "./internal/pkg/controler/pause", "run": "^TestVerif_C14_(Manager|ExitRaceStress)$", "kind": "rapid", "toolchain": "go126",
+         "facets": ["C14/manager", "C14/exit-race-stress"], "checks": (20000, 200000), "shards": (4, 16), "timeout": (600, 3000)},
         {"name": "c14enum", "pkg": "./internal/pkg/controler/pause", "run": "^TestVerif_C14_ManagerExhaustive$", "kind": "plain", "toolchain": "go126",
          "facets": ["C14/manager-enum"], "shards": (1, 1), "timeout": (600, 3000)},
         {"name": "c14kf1", "pkg": "./internal/pkg/controler/pause", "run": "^TestVerifKF_C14_ResumeWithoutPause$", "kind": "kf", "toolchain": "go126",
